@@ -1,0 +1,52 @@
+//! Verification hooks (feature `verif-hooks`, off by default).
+//!
+//! Records the cursor events of `MessageParser` into a thread-local log so that an external
+//! monitor can account for every byte of block 4. Has no effect on parsing.
+
+use std::cell::RefCell;
+
+/// One parser event
+#[derive(Debug, Clone, PartialEq)]
+pub enum HookEvent {
+    /// `MessageParser::extract_field` returned
+    Extract {
+        message_type: String,
+        tag: String,
+        optional: bool,
+        position_before: usize,
+        /// bytes between the cursor and the located tag that are not white space
+        skipped_non_ws: usize,
+        consumed: usize,
+        found: bool,
+    },
+    /// A field's own parser ran on extracted content
+    FieldParsed { tag: String, ok: bool },
+    /// The parser was dropped (end of `parse_from_block4`, success or failure)
+    ParserEnd {
+        message_type: String,
+        position: usize,
+        input_len: usize,
+        rest_is_blank: bool,
+    },
+}
+
+thread_local! {
+    static EVENTS: RefCell<Vec<HookEvent>> = const { RefCell::new(Vec::new()) };
+}
+
+const MAX_EVENTS: usize = 1 << 20;
+
+/// Append an event to the current thread's log
+pub fn emit(event: HookEvent) {
+    EVENTS.with(|e| {
+        let mut e = e.borrow_mut();
+        if e.len() < MAX_EVENTS {
+            e.push(event);
+        }
+    });
+}
+
+/// Take (and clear) the current thread's log
+pub fn take() -> Vec<HookEvent> {
+    EVENTS.with(|e| std::mem::take(&mut *e.borrow_mut()))
+}
